@@ -17,6 +17,21 @@ import common
 from common import b2f, b2fs, f2b, fs2b
 
 # --------------------------------------------------------------------------
+# precision of the objects that `build` constructs: float64 / complex128 (x64, every check) or the library's DEFAULT
+# float32 / complex64 (the default-precision worker sets SINGLE = True in a process started without jax_enable_x64)
+
+SINGLE = False
+
+
+def rdt():
+    return np.float32 if SINGLE else np.float64
+
+
+def cdt():
+    return np.complex64 if SINGLE else np.complex128
+
+
+# --------------------------------------------------------------------------
 # data helpers
 
 
@@ -64,9 +79,10 @@ def arg_to_scico(j, shape, cplx):
     """driver argument + shape (tuple | list of tuples) -> scico array / BlockArray"""
     import scico.numpy as snp
 
+    dt_ = cdt() if cplx else rdt()
     if "a" in j:
-        return snp.array(unil(b2fs(j["a"]), cplx, tuple(shape)))
-    return snp.blockarray([snp.array(unil(b2fs(b), cplx, tuple(s))) for b, s in zip(j["b"], shape)])
+        return snp.array(unil(b2fs(j["a"]), cplx, tuple(shape)).astype(dt_))
+    return snp.blockarray([snp.array(unil(b2fs(b), cplx, tuple(s)).astype(dt_)) for b, s in zip(j["b"], shape)])
 
 
 def dy(rng, shape, cplx, bits=3, scale=3.0):
@@ -349,15 +365,15 @@ def _op_obj(scico, case, oid, linear, cls=None):
     import scico.numpy as snp
 
     M = np.asarray([b2fs(r) for r in case["ops"][oid]], dtype=np.float64)
-    Mj = snp.array(M)
+    Mj = snp.array(M.astype(rdt()))
     if cls == "sid":
-        return linop.ScaledIdentity(float(M[0, 0]), (M.shape[1],), input_dtype=np.float64)
+        return linop.ScaledIdentity(float(M[0, 0]), (M.shape[1],), input_dtype=rdt())
     if cls == "diag":
-        return linop.Diagonal(snp.array(np.diag(M).copy()), input_dtype=np.float64)
+        return linop.Diagonal(snp.array(np.diag(M).copy()), input_dtype=rdt())
     if linear:
         return linop.MatrixOperator(Mj, input_cols=0)
     return operator.Operator(input_shape=(M.shape[1],), output_shape=(M.shape[0],), eval_fn=lambda x: Mj @ x,
-                             input_dtype=np.float64)
+                             input_dtype=rdt())
 
 
 def build(scico, case, t=None, shape=None, info=None):
@@ -485,9 +501,9 @@ def build(scico, case, t=None, shape=None, info=None):
                 m_ = int(np.prod(sh))
                 wb.append(snp.array(wf[pos : pos + m_].reshape(sh)))
                 pos += m_
-            W = linop.Diagonal(snp.blockarray(wb), input_dtype=np.float64)
+            W = linop.Diagonal(snp.blockarray(wb), input_dtype=rdt())
         elif t.get("w") is not None:
-            W = linop.Diagonal(snp.array(np.asarray(b2fs(t["w"])).reshape(shape)), input_dtype=np.float64)
+            W = linop.Diagonal(snp.array(np.asarray(b2fs(t["w"])).reshape(shape)), input_dtype=rdt())
         Ak = t["A"]["k"]
         if Ak == "ident":
             A = None
@@ -497,9 +513,9 @@ def build(scico, case, t=None, shape=None, info=None):
                 m_ = int(np.prod(sh))
                 db.append(snp.array(df[pos_ : pos_ + m_].reshape(sh)))
                 pos_ += m_
-            A = linop.Diagonal(snp.blockarray(db), input_dtype=np.complex128 if cplx else np.float64)
+            A = linop.Diagonal(snp.blockarray(db), input_dtype=cdt() if cplx else rdt())
         elif Ak == "diag":
-            A = linop.Diagonal(snp.array(unil(b2fs(t["A"]["d"]), cplx, shape)), input_dtype=np.complex128 if cplx else np.float64)
+            A = linop.Diagonal(snp.array(unil(b2fs(t["A"]["d"]), cplx, shape)), input_dtype=cdt() if cplx else rdt())
         else:
             A = _op_obj(scico, case, t["A"]["id"], Ak == "lin")
         res = loss.SquaredL2Loss(y=y, A=A, scale=s, W=W)
